@@ -116,6 +116,44 @@ def make_fallback(case):
     return run
 
 
+TWINS = [
+    # several structures in ONE cstruct whose generated readers have the same text but refer to different types of one name
+    "struct p1 { uint8 h; struct body { uint8 a; } b; uint8 t; };\nstruct p2 { uint8 h; struct body { uint32 x; uint16 y; } b; uint8 t; };",
+    "struct p1 { uint8 n; struct item { uint8 a; } v[2]; };\nstruct p2 { uint8 n; struct item { uint16 a; uint8 b; } v[2]; };",
+    "struct p1 { struct hdr { uint8 k; } h; uint16 x; };\nstruct p2 { struct hdr { uint8 k; uint8 l; } h; uint16 x; };\nstruct p3 { struct hdr { uint32 k; } h; uint16 x; };",
+]
+
+
+def make_twins(case):
+    """Every structure of a load() keeps its own nested types, whatever their names, in both readers."""
+    cfg, text = case["cfg"], case["text"]
+
+    def run(ctx):
+        from dissect.cstruct import cstruct
+        csi, csc = cstruct(endian=cfg["endian"]), cstruct(endian=cfg["endian"])
+        csi.load(text, compiled=False, align=cfg["align"])
+        csc.load(text, compiled=True, align=cfg["align"])
+        names = [n for n in ("p1", "p2", "p3") if n in csi.typedefs]
+        which = names[ctx.choose("which", len(names))]
+        I, C = csi.resolve(which), csc.resolve(which)
+        ctx.check("compiled reader installed (__compiled__)", bool(C.__compiled__) is True)
+        ctx.check("same layout (size, alignment, offsets)", _layout_sig(I) == _layout_sig(C), f"{_layout_sig(I)} vs {_layout_sig(C)}")
+        data = ctx.bytes("b", 16)
+        out = []
+        for cls in (I, C):
+            s = ctx.stream(data)
+            try:
+                out.append(("value", cls.read(s), s.tell()))
+            except Exception as e:  # noqa: BLE001
+                out.append(("error", H.classify(e), None))
+        ctx.check("both readers return or both raise", out[0][0] == out[1][0], f"{out[0][:2] if out[0][0] == 'error' else 'value'} vs {out[1][:2] if out[1][0] == 'error' else 'value'}")
+        if out[0][0] == out[1][0] == "value":
+            ctx.check("same number of bytes consumed", out[0][2] == out[1][2], f"{out[0][2]} vs {out[1][2]}")
+            ctx.check("same dump", R.bytes_eq(out[0][1].dumps(), out[1][1].dumps()))
+            ctx.check("equal recorded sizes", dict(out[0][1]._sizes) == dict(out[1][1]._sizes), f"{out[0][1]._sizes} vs {out[1][1]._sizes}")
+    return run
+
+
 OFFSET_PLANS = [
     # (type name, bits, explicit offset or None)
     [("uint8", None, 0), ("uint32", None, 6), ("uint16", None, None), ("uint8", None, 15)],
@@ -198,6 +236,10 @@ def cases(tier, seed):
             for text in ("struct test { uint16 a; odd o; uint8 t; };", "struct test { uint16 a; uint8 b:3; odd o; };",
                          "struct test { uint16 a; odd o[2]; uint8 t; };", "struct test { uint16 a; odd o[2][1]; uint8 t; };"):
                 yield {"label": "fallback", "cfg": {"endian": e, "align": a}, "text": text, "make": "make_fallback"}
+    for i, text in enumerate(TWINS):
+        for e in "<>":
+            for a in (False, True):
+                yield {"label": f"twins {i}", "cfg": {"endian": e, "align": a}, "text": text, "make": "make_twins"}
     seen = set()
     for c in families.struct_cases(tier, seed):
         cfg = {k: v for k, v in c["cfg"].items() if k != "compiled"}
